@@ -1,7 +1,8 @@
 (* C02 — non-consuming reads never change what later reads or counts see.  Pinned statements only;
    proofs in proofs/EngineC02.v and proofs/EngineMain.v. *)
 From W Require Import gen.Consts model.Base model.Engine model.EngineCfg spec.Queue
-  proofs.EngineWF proofs.EngineInv proofs.EngineW proofs.EngineMain proofs.EngineC02 proofs.EngineErase props.C01.
+  proofs.EngineWF proofs.EngineInv proofs.EngineW proofs.EngineMain proofs.EngineC02 proofs.EngineErase
+  proofs.EngineC06 proofs.EngineEraseG props.C01.
 From Coq Require Import Lia.
 
 (* (a) erasure, in full for everything the model holds: deleting every peek (read_next or batch
@@ -73,6 +74,120 @@ Example c02_witness :
      REntry (out_of (e 1 3700)); REntry (out_of (e 1 3700)); RNum 1].
 Proof. vm_compute. reflexivity. Qed.
 
+(* ------------------------------------------------------------------ (a) and (b) with restarts *)
+(* (a) for histories with ANY NUMBER OF RESTARTS ([OReopen] anywhere), any mode, any backend, both
+   read APIs mixed freely: deleting every peek and every offset-addressed read leaves the result of
+   every remaining operation (every restart included) unchanged.  The two booleans are evaluated
+   along the two runs (proofs/EngineC06.v): no restart of the run, resp. of the erased run, happens
+   in a state with block-id drift ([id_drift], model/Engine.v).  They cannot be dropped: see
+   [c02_erasure_refuted_id_drift] below.
+   What [reopen] reads of the in-memory state is, per known topic, the persisted index and the
+   unmodelled flag; a non-consuming read changes neither, nor the disk image
+   ([reopen_get_eq], proofs/EngineEraseR.v).  The extra work is between a restart and a topic's
+   first stateful read: the persisted position is applied by that read, read_next and batch_read
+   apply it with different reader tail fields, and an erased peek can make the two runs apply it
+   through different APIs; outside block-id drift both tail values are dead (they name a sealed
+   block) and no operation can tell (proofs/EngineEraseD.v, proofs/EngineEraseG.v). *)
+Theorem c02_erasure_with_restarts : forall (c : Cfg) (m : mode) (be : backend) (ops : list op),
+  cfg_ok c ->
+  outside_known (env_of c m be) init ops = true ->
+  outside_known (env_of c m be) init (filter keep ops) = true ->
+  N.of_nat (length (offered_all ops)) <= u64_max -> sum_len (offered_all ops) <= u64_max ->
+  filter (fun p => keep (fst p)) (trace (env_of c m be) init ops) = trace (env_of c m be) init (filter keep ops).
+Proof. exact erase_with_restarts. Qed.
+
+(* (b) with restarts: a peek returns exactly what the immediately following consuming read with
+   the same arguments returns, in every state such a history reaches — in particular when the
+   peek is the first read after a restart and itself applies the persisted position *)
+Theorem c02_peek_equals_consuming_read_after_restart : forall (c : Cfg) (m : mode) (be : backend) (ops : list op),
+  cfg_ok c ->
+  outside_known (env_of c m be) init ops = true ->
+  N.of_nat (length (offered_all ops)) <= u64_max -> sum_len (offered_all ops) <= u64_max ->
+  c02b_ok (trace (env_of c m be) init ops) = true.
+Proof. exact c02b_with_restarts. Qed.
+
+(* non-vacuity: two restarts; before the first a consuming read of the writer block persists a
+   TAIL position and a rotation seals that block; after it a read_next peek, offset reads and a
+   batch peek are erased, so the two runs apply the persisted position through different APIs *)
+Definition dt (n : N) : topic := {| t_id := n; t_nlen := 2 |}.
+Definition c02_restart_ops : list op :=
+  [OAppend t1 (e 0 5000); OAppend t1 (e 1 2000); ORead t1 true; OAppend t1 (e 2 9000); OAppend (dt 2) (e 3 100);
+   OReopen;
+   ORead t1 false; OBatchRead t1 100000 true (Some 0); OBatchRead t1 100000 true None; OCount t1; OAppend t1 (e 4 300);
+   OBatchRead (dt 2) 100000 false None; ORead (dt 2) true; OBatchRead t1 4000 false (Some 5000);
+   OReopen;
+   OBatchRead t1 100000 false None; ORead t1 true; OCount t1; ORead (dt 2) false; OCount (dt 2); ORead t1 true].
+
+Example c02_restart_witness :
+  outside_known (env_of small_cfg Strict Fd) init c02_restart_ops = true /\
+  outside_known (env_of small_cfg Strict Fd) init (filter keep c02_restart_ops) = true /\
+  map snd (trace (env_of small_cfg Strict Fd) init c02_restart_ops)
+  = [ROk; ROk; REntry (out_of (e 0 5000)); ROk; ROk;
+     ROk;
+     REntry (out_of (e 1 2000)); REntries [out_of (e 0 5000); out_of (e 1 2000); out_of (e 2 9000)];
+     REntries [out_of (e 1 2000); out_of (e 2 9000)]; RNum 0; ROk;
+     REntries [out_of (e 3 100)]; REntry (out_of (e 3 100)); REntries [{| o_pid := 0; o_skip := 4744; o_len := 256 |}];
+     ROk;
+     REntries [out_of (e 4 300)]; REntry (out_of (e 4 300)); RNum 0; RNone; RNum 0; RNone] /\
+  filter keep c02_restart_ops
+  = [OAppend t1 (e 0 5000); OAppend t1 (e 1 2000); ORead t1 true; OAppend t1 (e 2 9000); OAppend (dt 2) (e 3 100);
+     OReopen; OBatchRead t1 100000 true None; OCount t1; OAppend t1 (e 4 300); ORead (dt 2) true;
+     OReopen; ORead t1 true; OCount t1; OCount (dt 2); ORead t1 true] /\
+  map snd (trace (env_of small_cfg Strict Fd) init (filter keep c02_restart_ops))
+  = [ROk; ROk; REntry (out_of (e 0 5000)); ROk; ROk;
+     ROk; REntries [out_of (e 1 2000); out_of (e 2 9000)]; RNum 0; ROk; REntry (out_of (e 3 100));
+     ROk; REntry (out_of (e 4 300)); RNum 0; RNum 0; RNone] /\
+  (* AtLeastOnce: the same history is outside the known class too, and the restarts redeliver *)
+  outside_known (env_of small_cfg (ALO 2) Mmap) init c02_restart_ops = true /\
+  outside_known (env_of small_cfg (ALO 2) Mmap) init (filter keep c02_restart_ops) = true /\
+  map snd (trace (env_of small_cfg (ALO 2) Mmap) init (filter keep c02_restart_ops))
+  = [ROk; ROk; REntry (out_of (e 0 5000)); ROk; ROk;
+     ROk; REntries [out_of (e 0 5000); out_of (e 1 2000); out_of (e 2 9000)]; RNum 0; ROk; REntry (out_of (e 3 100));
+     ROk; REntry (out_of (e 0 5000)); RNum 3; RNum 1; REntry (out_of (e 1 2000))].
+Proof. vm_compute. repeat split; reflexivity. Qed.
+
+(* the hypothesis cannot be dropped (corpus/C02/iddrift-peek.case, confirmed on the code): seven
+   one-entry topics leave a hole in the allocator ids, topic 8's consuming read persists a TAIL
+   position, the restart renumbers its blocks (block-id drift).  read_next resolves the dangling
+   position to the start of the chain, batch_read keeps the recovered cursor at the end of the
+   chain: WITH the read_next peek the consuming batch read returns both entries and the count
+   goes to 0; WITHOUT it the batch read returns nothing and the count stays 2. *)
+Definition c02_drift_ops : list op :=
+  [OAppend (dt 1) (e 0 10); OAppend (dt 2) (e 1 10); OAppend (dt 3) (e 2 10); OAppend (dt 4) (e 3 10); OAppend (dt 5) (e 4 10);
+   OAppend (dt 6) (e 5 10); OAppend (dt 7) (e 6 10); OAppend (dt 8) (e 7 5000); OAppend (dt 8) (e 8 100); ORead (dt 8) true;
+   OReopen;
+   ORead (dt 8) false; OBatchRead (dt 8) 100000 true None; OCount (dt 8)].
+
+Theorem c02_erasure_refuted_id_drift :
+  outside_known (env_of small_cfg Strict Fd) init c02_drift_ops = false /\
+  map snd (filter (fun p => keep (fst p)) (trace (env_of small_cfg Strict Fd) init c02_drift_ops))
+  = [ROk; ROk; ROk; ROk; ROk; ROk; ROk; ROk; ROk; REntry (out_of (e 7 5000)); ROk;
+     REntries [out_of (e 7 5000); out_of (e 8 100)]; RNum 0] /\
+  map snd (trace (env_of small_cfg Strict Fd) init (filter keep c02_drift_ops))
+  = [ROk; ROk; ROk; ROk; ROk; ROk; ROk; ROk; ROk; REntry (out_of (e 7 5000)); ROk;
+     REntries []; RNum 2].
+Proof. vm_compute. repeat split; reflexivity. Qed.
+
+Theorem c02_erasure_with_restarts_needs_outside_known :
+  ~ (forall ops : list op,
+       filter (fun p => keep (fst p)) (trace (env_of small_cfg Strict Fd) init ops)
+       = trace (env_of small_cfg Strict Fd) init (filter keep ops)).
+Proof.
+  intros H. pose proof (f_equal (map snd) (H c02_drift_ops)) as E.
+  destruct c02_erasure_refuted_id_drift as (_ & H1 & H2).
+  pose proof (eq_trans (eq_trans (eq_sym H1) E) H2) as X. discriminate X.
+Qed.
+
+(* (b) right after a restart, both APIs, the peek applying the persisted position itself *)
+Example c02_peek_after_restart_witness :
+  let ops := [OAppend t1 (e 0 5000); OAppend t1 (e 1 2000); ORead t1 true; OAppend t1 (e 2 9000); OReopen;
+              ORead t1 false; ORead t1 true; OReopen; OBatchRead t1 100000 false None; OBatchRead t1 100000 true None] in
+  outside_known (env_of small_cfg Strict Fd) init ops = true /\
+  map snd (trace (env_of small_cfg Strict Fd) init ops)
+  = [ROk; ROk; REntry (out_of (e 0 5000)); ROk; ROk; REntry (out_of (e 1 2000)); REntry (out_of (e 1 2000)); ROk;
+     REntries [out_of (e 2 9000)]; REntries [out_of (e 2 9000)]].
+Proof. vm_compute. split; reflexivity. Qed.
+
 Check c02_erasure : forall (c : Cfg) (m : mode) (be : backend) (ops : list op),
   cfg_ok c -> Forall (op_ok c) ops ->
   N.of_nat (length (offered_all ops)) <= u64_max -> sum_len (offered_all ops) <= u64_max ->
@@ -87,3 +202,18 @@ Print Assumptions c02_peek_and_offset_reads.
 Print Assumptions c02_batch_peek_then_consume.
 Print Assumptions c02_subranges_any_state.
 Print Assumptions c02_offset_read_changes_nothing.
+Check c02_erasure_with_restarts : forall (c : Cfg) (m : mode) (be : backend) (ops : list op),
+  cfg_ok c ->
+  outside_known (env_of c m be) init ops = true ->
+  outside_known (env_of c m be) init (filter keep ops) = true ->
+  N.of_nat (length (offered_all ops)) <= u64_max -> sum_len (offered_all ops) <= u64_max ->
+  filter (fun p => keep (fst p)) (trace (env_of c m be) init ops) = trace (env_of c m be) init (filter keep ops).
+Check c02_peek_equals_consuming_read_after_restart : forall (c : Cfg) (m : mode) (be : backend) (ops : list op),
+  cfg_ok c ->
+  outside_known (env_of c m be) init ops = true ->
+  N.of_nat (length (offered_all ops)) <= u64_max -> sum_len (offered_all ops) <= u64_max ->
+  c02b_ok (trace (env_of c m be) init ops) = true.
+Print Assumptions c02_erasure_with_restarts.
+Print Assumptions c02_peek_equals_consuming_read_after_restart.
+Print Assumptions c02_erasure_refuted_id_drift.
+Print Assumptions c02_erasure_with_restarts_needs_outside_known.
